@@ -36,7 +36,7 @@ ASSUMPTIONS = ["observer instances never outlive their own time-out, victims are
                "global endpoints (metrics) are excluded from the comparison",
                "the oracle is self-relative: a defect that is identical in the interleaved and the solo run does not surface here"]
 FAULT_KINDS = ["request_interleaving", "victim_expiry", "victim_stop", "preemption"]
-PROBES = ["session_on_its_own_time_grid", "instances_created_by_one_batch_request", "server_level_run_traffic", "same_settings_on_two_instances", "victim_swept_by_observer_request", "victim_stopped", "settings_differ_between_instances", "shared_base_model",
+PROBES = ["scenarios_from_files", "session_on_its_own_time_grid", "instances_created_by_one_batch_request", "server_level_run_traffic", "same_settings_on_two_instances", "victim_swept_by_observer_request", "victim_stopped", "settings_differ_between_instances", "shared_base_model",
           "adapter_files_compared"]
 EXHAUSTIVE = {"quick": False, "thorough": False}
 
@@ -159,7 +159,7 @@ def generate(spec):
             o["t_us"] = last + 1
         last = o["t_us"]
     case = {"property": PROPERTY,
-            "config": {"adapter": adapter, "shared_base": shared,
+            "config": {"adapter": adapter, "shared_base": shared, "scenario_files": (not shared) and rng.random() < 0.25,
                        "model": {"template": template, "start": 1.0, "stop": 12.0, "dt": 1.0,
                                  "managers": {"smA": {"base": {}, "alt": {"constants": {"constant": 2.0} if template == "T1" else {"drain": 1.0}}}}}},
             "instances": insts, "ops": ops}
@@ -259,7 +259,7 @@ def _run(case, only=None, log=None, res=None, conc=None):
     res = res if res is not None else RunResult()
     out = {}
     files = {}
-    wcfg = {"model": cfg["model"], "adapter": cfg.get("adapter"), "shared_base": cfg.get("shared_base"),
+    wcfg = {"model": cfg["model"], "adapter": cfg.get("adapter"), "shared_base": cfg.get("shared_base"), "scenario_files": cfg.get("scenario_files"),
             "threads": "auto" if conc else "serial"}
     with ServerWorld(wcfg, log, res) as w:
         w.boot()
